@@ -10,17 +10,17 @@ CONSTANTS
   EncChoices = {FALSE, TRUE}
   ByValueMax = 2
   AllowConflicts = FALSE
-  Features = {}
-  Window = 2
-  Retention = 2
+  Features = {"apps", "storage", "detached"}
+  Window = 1024
+  Retention = 3
   BurstSizes = {1, 2}
-  MaxApps = 0
+  MaxApps = 30
   Depth = 60
-  WProgress = 60
-  WPropose = 30
-  WCommit = 35
+  WProgress = 50
+  WPropose = 20
+  WCommit = 30
   WApp = 15
-  WStore = 10
+  WStore = 30
 INVARIANT EmitAtDepth
 INVARIANT Agreement
 INVARIANT EpochIsChainLength
